@@ -56,6 +56,7 @@ Next ==
     \/ \E k \in 1..2 : ResetTo(k)
     \/ Reset
     \/ ResetToStart
+    \/ RawRoundtrip
     \/ DropArena
     \/ AllocHuge(1)
     \/ \E id \in LiveIds : Realloc(id, "none")
@@ -125,6 +126,7 @@ SimStep ==
     \/ (G("scope") /\ cps # <<>> /\ ResetTo(R(1..Len(cps))))
     \/ (G("reset") /\ Reset)
     \/ (G("reset") /\ ResetToStart)
+    \/ (G("reset") /\ RawRoundtrip)
     \/ (nops >= MaxOps - 3 /\ DropArena)
     \/ (G("huge") /\ AllocHuge(R({1, 8, 64})))
     \/ (G("realloc") /\ LiveIds # {} /\ Realloc(R(LiveIds), R({"none", "none", "wd", "ws"})))
